@@ -29,6 +29,9 @@ func (C11) Describe() CheckInfo {
 }
 
 var c11Probes = []string{
+	// literals and token sequences at the edges of the lexer
+	"\"\\u12\"", "\"abc\\u\"", ".a = \"x\\u1\"", "\"\\t\\r\\n\\\\\"", "\"\\x\"", "\"\\", "\"\\u00e9\\ud83d\"", "\"\\(\"", "\"\\(.a\"", "\"\\()\"", "\"a\\(\"b\")c\"",
+	"[:1]", "[:]", "[: .a]", "[1:]", ".[:]", ".a[:2]", "$x[:2]", "[", "]", "[]]", "{:}", "{\"a\":}", ".[", ".a.[", "..[", "|", "| .", ". |", ",", "(,)", "()", "((((((((((.))))))))))", ".a as", "as $x", "$", "$ | .", "@", "@nope", ".a |= ", "= 1", "1 =", "//", ". // ", "? .", ".a?[]", ".[]?[]?", "#", "# only a comment", ".a # c", "0x", "0o9", "1e", "1e400", "-", "--1", ".a - - 1", "1_0", ".e.1e2", "\"\"\"\"", "'a'", "`.a`",
 	// comments and keys that are legal for a node but awkward for an encoder
 	".. head_comment=\"\\n\\n\\n\"", ". foot_comment=\"\\n\"", ".. line_comment=\"--\"", ".. head_comment=\"*/ --> ]]>\"", ".. line_comment=\"a\\nb\"", ". head_comment=\"\"", ".. |= (. head_comment=\"\\r\")",
 	"[{\"name\": \"n1\", \"size\": 1}, [\"x\", \"y\", \"name\"]]", "[[\"a\"], {\"a\": 1}]", "[{\"a\": 1}, 2]", "[[1, 2], \"x\"]", "[{\"a\": 1}, [\"a\"]] | @csv", "[{\"a\": 1}, [\"b\", \"a\"]] | @tsv", "[{}, []]", "[[], {}]",
@@ -322,7 +325,10 @@ func (C11) Generate(c *Ctx, r *Rand, index int) *Scenario {
 	if rs.Chance(1, 8) {
 		// the expression comes from a (possibly damaged) file
 		eb := []byte(expr)
-		if rd.Chance(1, 2) {
+		if rs.Chance(1, 3) {
+			// what people put at the top of an expression file
+			eb = []byte(Pick(rs, []string{"#!/usr/bin/env yq", "#!/usr/bin/env yq\n", "# one\n# two", "# c\n" + expr, "\xef\xbb\xbf" + expr, strings.ReplaceAll(expr, " | ", " |\r\n") + "\r\n", expr + " \\", "# c\r\n" + expr + "\r\n", "\n\n" + expr + "\n# tail", ""}))
+		} else if rd.Chance(1, 2) {
 			var eds []damage
 			eb, eds = applyDamage(rd, eb, rd.Range(1, 2))
 			sc.Meta["expr_damage"] = eds
